@@ -344,13 +344,13 @@ End Nested.
 (* unknown fields at every struct level: the decoded value is that of the clean encoding, the cursor stops in front
    of the trailing unknown fields *)
 Theorem decode_into_nested e k sid vs prior Js body tail :
-  wf_schema k e -> has_type e (TStruct sid) (VStruct vs) -> zlike e (TStruct sid) prior ->
+  wf_schema k e -> has_type e (TStruct sid) (VStruct vs) ->
   xfields e (fields_of e sid) vs Js body -> junks_ok None (fields_of e sid) Js ->
   (forall fd, In fd (fields_of e sid) -> follows (ftag fd) tail) ->
   (need_list vs + k + 3 <= 2 * length (body ++ tail) + 64)%nat ->
   decode_into e sid prior (body ++ tail) = DOk (norm_struct e sid (VStruct vs)) tail.
 Proof.
-  intros Hwf Hty Hp Hxf HJ Htail Hfuel. unfold decode_into, norm_struct. rewrite norm_str.
+  intros Hwf Hty Hxf HJ Htail Hfuel. unfold decode_into, norm_struct. rewrite norm_str.
   set (bs := body ++ tail) in *.
   replace (4 * length bs + 64)%nat with (S (4 * length bs + 63)) by lia.
   destruct (struct_priors1 e k (4 * length bs + 63) sid prior Hwf ltac:(lia)) as (ps & -> & Hps).
@@ -446,7 +446,6 @@ Theorem extras_nested e k n sid vs Js body Jl :
 Proof.
   intros Hwf Hk Hfin Hn Hty Hxf HJ HJl. split; [|now apply (roundtrip_struct_static e k n)].
   unfold decode. apply (decode_into_nested e k sid vs _ Js); try assumption.
-  - now apply (zero_struct_zlike e k).
   - intros fd Hin. now apply (follows_trailing (fields_of e sid)).
   - destruct n as [|n']; [discriminate|]. cbn [tfin tneed] in Hfin, Hn. rewrite forallb_forall in Hfin.
     inversion Hty as [| | | | |? ? Hvs]; subst; [discriminate|].
